@@ -98,12 +98,12 @@ def any_int_valued(rng):
 class Widener(object):
     """substitution of values (and titles) for one history"""
 
-    def __init__(self, family, seed, seeds_raw):
+    def __init__(self, family, seed, seeds_raw, rename=True):
         self.rng = random.Random(seed)
         self.family = family
         self.int_integral = self.rng.random() < 0.7      # integer typed columns hold integers (hdf domain)
         self.rename = {}
-        if family == "table":
+        if family == "table" and rename:
             used = set()
             titles = []
             for o in sorted(seeds_raw):
@@ -490,7 +490,11 @@ def unrename(obs, back):
 def replay_widened(family, hist, seeds_raw, expA, expF, root, seed):
     out = {"fail": None, "sig": None, "checks": 0, "seed": seed, "step": None}
     try:
-        w = Widener(family, seed, seeds_raw)
+        # what a *failing* colfile_to_hdf leaves behind depends on the order of the titles, and the order
+        # colfile_from_hdf gives depends on the names: histories with a failing WriteHdf keep the model's titles
+        failing = any(hist[i]["op"] == "WriteHdf" and "err" in (expA[i]["res"], expF[i]["res"])
+                      for i in range(1, len(hist)))
+        w = Widener(family, seed, seeds_raw, rename=not failing)
         raw = seeds_raw
         if w.rename:
             raw = {}
